@@ -13,7 +13,7 @@
 (***************************************************************************)
 EXTENDS Gen_Schema
 CONSTANTS GrowSteps, EditSteps
-VARIABLES ta, tb, phase, n
+VARIABLES ta, tb, tc, phase, n   \* tc: a second text, derived from the first by further edits (sequences of updates)
 
 KE == <<34,101,34>>
 KeysR == <<K3[1], K3[2], K3[3], KD, KE>>
@@ -57,18 +57,24 @@ Deletes2(t) ==
   UNION {LET nd == NodeAt(t, p) IN
          IF nd.s = "obj" /\ Len(nd.m) > 0 THEN {PutAt(t, p, DropMember(nd, j)) : j \in 1..Len(nd.m)} ELSE {} : p \in Pos(t)}
 
-RInit == ta = Obj(<<>>) /\ tb = Obj(<<>>) /\ phase = "grow" /\ n = 0 /\ tree = Tok(N1) /\ tree2 = Tok(N1) /\ layout = 0
+RInit == ta = Obj(<<>>) /\ tb = Obj(<<>>) /\ tc = Obj(<<>>) /\ phase = "grow" /\ n = 0 /\ tree = Tok(N1) /\ tree2 = Tok(N1) /\ layout = 0
+Edits(t) == Replaces(t) \cup Deletes2(t) \cup Inserts(t) \cup Swaps(t)
 RNext == UNCHANGED <<tree, tree2, layout>> /\
   \/ /\ phase = "grow" /\ n < GrowSteps
-     /\ ta' \in Inserts(ta) /\ n' = n + 1 /\ UNCHANGED <<tb, phase>>
+     /\ ta' \in Inserts(ta) /\ n' = n + 1 /\ UNCHANGED <<tb, tc, phase>>
   \/ /\ phase = "grow" /\ n = GrowSteps
-     /\ tb' = ta /\ phase' = "edit" /\ n' = 0 /\ UNCHANGED ta
+     /\ tb' = ta /\ phase' = "edit" /\ n' = 0 /\ UNCHANGED <<ta, tc>>
   \/ /\ phase = "edit" /\ n < EditSteps
-     /\ tb' \in (Replaces(tb) \cup Deletes2(tb) \cup Inserts(tb) \cup Swaps(tb)) /\ n' = n + 1 /\ UNCHANGED <<ta, phase>>
+     /\ tb' \in Edits(tb) /\ n' = n + 1 /\ UNCHANGED <<ta, tc, phase>>
+  \/ /\ phase = "edit" /\ n = EditSteps
+     /\ tc' = tb /\ phase' = "edit2" /\ n' = 0 /\ UNCHANGED <<ta, tb>>
+  \/ /\ phase = "edit2" /\ n < 2
+     /\ tc' \in Edits(tc) /\ n' = n + 1 /\ UNCHANGED <<ta, tb, phase>>
 
-REmit == (phase = "edit" /\ n = EditSteps) =>
-  LET E == DenT(ta) V == DenT(tb) IN
-  CSVWrite("%1$s", <<ToJson([e |-> RenderL(ta, LayE), v |-> RenderL(tb, LayV),
+REmit == (phase = "edit2" /\ n = 2) =>
+  LET E == DenT(ta) V == DenT(tb) W == DenT(tc) IN
+  CSVWrite("%1$s", <<ToJson([e |-> RenderL(ta, LayE), v |-> RenderL(tb, LayV), v2 |-> RenderL(tc, LayV),
                              schema |-> SchemaMerge(E, V), lazy |-> LazyMerge(E, V),
-                             schema2 |-> SchemaMerge(SchemaMerge(E, V), V)])>>, IOEnv.OUT)
+                             schema2 |-> SchemaMerge(SchemaMerge(E, V), V),
+                             schema12 |-> SchemaMerge(SchemaMerge(E, V), W)])>>, IOEnv.OUT)
 =============================================================================
